@@ -21,7 +21,8 @@ import random
 from . import tlc, structural as ST, world as W
 from .common import Machinery
 
-LCONST = {"HistLen": 0, "GenKinds": {"ibft", "idftr", "idfti"}, "GDirs": {0}, "GUnks": {2}, "HideSets": "<-HNone",
+NOF = {"t": "none", "L": [], "V": []}
+LCONST = {"HistLen": 0, "GenKinds": {"ibft", "idftr", "idfti"}, "GDirs": {0}, "GUnks": {2}, "HideSets": "<-HNone", "ViaSet": "<-VNone",
           "Pace": False, "MinLinks": 0}
 INVS = ["NoDupYields", "YieldsListed", "LocalsVisited", "DoneIsEmpty"]
 PROPS = ["YieldIsMemberNow", "Progress", "ExhaustedStays", "MutationsLeaveLocals", "Undisturbed", "DiscoveredByEdge"]
@@ -46,8 +47,9 @@ def _gens():
 def make_gen(w, gs):
     hidden = [w.o(h) for h in gs["hide"]]
     fr = (lambda v: not any(v is h for h in hidden)) if hidden else None
+    from . import probes as P
     return _gens()[gs["kind"]](w.o(gs["u"]) if gs["u"] else None, w.o(gs["s"]), direction_sensitive=gs["d"],
-                               unknown_handling=gs["unk"], ff_result=fr)
+                               unknown_handling=gs["unk"], ff_via=P.mk_filter(w, gs.get("fv", NOF), 2), ff_result=fr)
 
 
 def eager_plan(w, gs):
@@ -61,8 +63,9 @@ def eager_plan(w, gs):
     flag = Vertex.NEIGHBOR_CACHING
     Vertex.NEIGHBOR_CACHING = False
     try:
+        from . import probes as P
         return [w.n_obj(v) for v in lst(w.o(gs["u"]) if gs["u"] else None, w.o(gs["s"]), direction_sensitive=gs["d"],
-                                        unknown_handling=gs["unk"], ff_result=fr)]
+                                        unknown_handling=gs["unk"], ff_via=P.mk_filter(w, gs.get("fv", NOF), 2), ff_result=fr)]
     except Exception:       # noqa: BLE001
         return None
     finally:
@@ -84,7 +87,7 @@ def model(run, wd, tier):
     if tier == "thorough":
         cfgs += [("lazy-2x2-DU+uni", MODEL_B, {}),
                  ("lazy-3x2-DT+uni+unk", MODEL_C, {"GUnks": {0, 1, 2}, "HideSets": "<-HSome"}),
-                 ("lazy-2x2-DU+uni+dirs+hide", MODEL_B, {"GDirs": {0, 1, 2}, "HideSets": "<-HSome"})]
+                 ("lazy-2x2-DU+uni+dirs+hide+via", MODEL_B, {"GDirs": {0, 1, 2}, "HideSets": "<-HSome", "ViaSet": "<-VSome"})]
     for name, consts, over in cfgs:
         c = dict(consts)
         c.update(LCONST)
@@ -104,7 +107,7 @@ def model(run, wd, tier):
 def simulate(wd, num, depth, seed):
     c = dict(SIM)
     c.update(LCONST)
-    c.update({"HistLen": depth, "Pace": True, "MinLinks": 3, "GDirs": {0, 1, 2}, "HideSets": "<-HSome"})
+    c.update({"HistLen": depth, "Pace": True, "MinLinks": 3, "GDirs": {0, 1, 2}, "HideSets": "<-HSome", "ViaSet": "<-VSome"})
     text = tlc.make_cfg(c, init="LInit", next_="LNext", view="LView", constraint="LBound", invariants=["DumpHist"])
     res = tlc.run_tlc("EGLazy", text, wd, workers=1, tag="lazy-sim", simulate=f"num={num}", depth=depth + 1, seed=seed, timeout=1800)
     seen, out = set(), []
@@ -132,7 +135,8 @@ def run_schedule(consts, hist, caching):
         for e in hist:
             c = e["c"]
             if c["op"] == "gcreate":
-                gs = {"kind": c["k"], "u": c["a"][0], "s": c["a"][1], "d": c["a"][2], "unk": c["a"][3], "hide": list(c["b"])}
+                gs = {"kind": c["k"], "u": c["a"][0], "s": c["a"][1], "d": c["a"][2], "unk": c["a"][3], "hide": list(c["b"]),
+                      "fv": {"t": c["fv"]["t"], "L": list(c["fv"]["L"]), "V": list(c["fv"]["V"])}}
                 s0 = w.project()
                 gen = make_gen(w, gs)
             elif c["op"] == "gnext":
@@ -194,7 +198,9 @@ def random_trace(consts, seed, caching):
                 w.apply({"op": "uadd", "k": "", "a": [1, o], "b": []})
         gs = {"kind": rnd.choice(["ibft", "idftr", "idfti"]), "u": rnd.choice([0, w.NV + 1, w.NV + 1]), "s": rnd.randint(1, w.bv),
               "d": rnd.choice([0, 0, 1, 2]), "unk": rnd.choice([0, 1, 2, 2]),
-              "hide": sorted(rnd.sample(range(1, w.bv + 1), rnd.choice([0, 0, 1, 2])))}
+              "hide": sorted(rnd.sample(range(1, w.bv + 1), rnd.choice([0, 0, 1, 2]))),
+              "fv": rnd.choice([NOF, NOF, NOF, {"t": "all", "L": [], "V": []}, {"t": "rej", "L": [], "V": []},
+                                {"t": "sel", "L": sorted(rnd.sample(range(1, w.NL + 1), 3)), "V": sorted(rnd.sample(range(1, w.bv + 1), 2))}])}
         s0 = w.project()
         gen = make_gen(w, gs)
         ev, idle, disturbed = [], 0, False
@@ -237,7 +243,7 @@ def klass(t):
     gs = t["gen"]
     n = sum(1 for e in t["ev"] if e["op"] == "next" and e["out"])
     errs = sorted({e["err"] for e in t["ev"] if e["op"] == "next" and e["err"]})
-    return (f"lazy:{gs['kind']},uni={int(bool(gs['u']))},dir={gs['d']},unk={gs['unk']},hide={min(len(gs['hide']), 1)},"
+    return (f"lazy:{gs['kind']},uni={int(bool(gs['u']))},dir={gs['d']},unk={gs['unk']},hide={min(len(gs['hide']), 1)},via={gs.get('fv', NOF)['t']},"
             f"{'disturbed' if t['disturbed'] else 'quiet'},{'lazy-differs' if eager_differs(None, t) else 'as-eager'},yields={min(n, 4)},err={'+'.join(errs) or '-'},cache={int(t['caching'])}")
 
 
